@@ -32,6 +32,7 @@ func init() {
 		Build: func(c *Ctx) []*an.Oblig {
 			fieldClassCensus(c)
 			atomWitnesses(c)
+			bufferWriterAudit(c) // values are published by copying them into the buffer's own array under the lock (no aliasing of caller memory)
 			out := c.sel(func(o *an.Oblig) bool {
 				return ruleIn(o, "G", "CLS", "ESC", "HO", "ANCHOR") || isUndecided(o)
 			})
